@@ -51,7 +51,7 @@ def props_of(fi) -> tuple:
     """properties a structural defect *inside* this function is reported against"""
     name = fi.node.name
     mod = fi.module.name
-    if mod.endswith("einsum_constructor"):
+    if mod.startswith("photon_weave.extra.einsum_"):
         return ESC_PROPS.get(name, ("C01",))
     if mod.endswith("expression_interpreter"):
         return ("C16",)
@@ -59,7 +59,7 @@ def props_of(fi) -> tuple:
         return ("C14",)
     if ".operation" in mod:
         return ("C12", "C15")
-    if mod.endswith("_math.ops"):
+    if mod.startswith("photon_weave._math"):
         if name in ("apply_kraus", "kraus_identity_check"):
             return ("C06",)
         if name.startswith("num_quanta"):
@@ -82,14 +82,14 @@ HOME = {
     "SAMP-a": ("C14", "C04", "C09"), "SAMP-b": ("C14",), "SAMP-c": ("C14",), "SAMP-e": ("C04",), "SAMP-f": ("C09",),
     "NORM": ("C01", "C05", "C06", "C07", "C09"), "RENORM": ("C01", "C07", "C17"), "OUTER": ("C08",), "TAG": ("C06", "C07", "C08"),
     "CONTRACT-ONLY": ("C08",), "CONTRACT-VEC": ("C08",), "SANDWICH": ("C01", "C05", "C06", "C09", "C12", "C15"), "KRAUS-SUM": ("C06",), "KRAUS-LEVEL": ("C06",),
-    "POVM-LEVEL": ("C09",), "KRAUS-VALID": ("C06", "C17"), "VBC": ("C17", "C10"), "BOOK-order": ("C13", "C07", "C10"), "BOOK-evict": ("C05", "C13", "C20"),
+    "POVM-LEVEL": ("C09",), "KRAUS-VALID": ("C06", "C17"), "VBC": ("C17", "C10"), "BOOK-order": ("C13", "C07", "C10"), "BOOK-evict": ("C05", "C13", "C20", "C07"),
     "BOOK-merge": ("C13",), "BOOK-own": ("C13",), "BOOK-absorb": ("C13", "C02"), "IDENT-contract": ("C18",), "IDENT-site": ("C18", "C17"),
-    "BLOCK": ("C20", "C03", "C02"), "PURE-a": ("C15", "C03", "C17", "C10", "C12"), "PURE-b": ("C15", "C10", "C01", "C03", "C12", "C11"), "PURE-c": ("C15",),
+    "BLOCK": ("C20", "C03", "C02", "C01", "C06", "C09"), "PURE-a": ("C15", "C03", "C17", "C10", "C12"), "PURE-b": ("C15", "C10", "C01", "C03", "C12", "C11"), "PURE-c": ("C15",),
     "ALIAS-MUT": ("C15", "C16"), "INTERP": ("C16",), "RESIZE": ("C10", "C17", "C07", "C01", "C11"), "DISPATCH": ("C12", "C17"), "DEFS": ("C12", "C11"),
     "BALANCE": ("C11", "C12", "C10"), "ESCGEN": ("C01", "C02", "C03", "C04", "C06", "C09"), "ESCCALL": ("C01", "C02", "C03", "C04", "C06", "C09", "C08"),
-    "COLLAPSE": ("C04", "C05", "C07", "C09"), "MEASURE-SET": ("C04", "C05"), "PAIR": ("C02", "C03", "C13"), "LAYOUT": ("C01", "C02", "C04", "C05", "C06", "C09", "C10"),
-    "ENVAXIS": ("C01", "C02", "C04", "C05", "C06", "C09", "C10"), "LABEL": ("C05", "C07", "C08"), "VALID": ("C17",), "DELEG-ORDER": ("C01", "C02", "C03", "C06", "C09"),
-    "OUTCOME-SPACE": ("C04", "C09"), "DIM-FLOOR": ("C10",), "PARTNER": ("C04", "C05", "C09"), "DIM-NORM": ("C10",), "MUST-APPLY": ("C01", "C03", "C11"), "RENORM-TABLE": ("C07", "C01"), "PHASE-GLOBAL": ("C08", "C07"), "ROUTE-env": ("C01", "C02", "C04", "C05", "C06", "C09", "C10"), "LABEL-EXACT": ("C07", "C08"), "EST-TAIL": ("C10",), "BOOK-extract": ("C13", "C02"), "DETACH": ("C02", "C05", "C06", "C07", "C09", "C13"), "STALE-PS": ("C01", "C02", "C03", "C06", "C09", "C10"), "DTYPE": ("C01", "C07", "C10", "C06", "C09", "C02", "C05", "C04", "C08"), "STALE-VIEW": ("C01", "C02", "C04", "C05", "C06", "C07", "C09", "C10"),
+    "COLLAPSE": ("C04", "C05", "C07", "C09"), "MEASURE-SET": ("C04", "C05"), "PAIR": ("C02", "C03", "C13"), "LAYOUT": ("C01", "C02", "C04", "C05", "C06", "C09", "C10", "C07", "C08"),
+    "ENVAXIS": ("C01", "C02", "C04", "C05", "C06", "C09", "C10"), "LABEL": ("C05", "C07", "C08"), "VALID": ("C17", "C03", "C15"), "DELEG-ORDER": ("C01", "C02", "C03", "C06", "C09"),
+    "OUTCOME-SPACE": ("C04", "C09"), "DIM-FLOOR": ("C10", "C12"), "PARTNER": ("C04", "C05", "C09"), "DIM-NORM": ("C10",), "MUST-APPLY": ("C01", "C03", "C11"), "RENORM-TABLE": ("C07", "C01"), "PHASE-GLOBAL": ("C08", "C07"), "ROUTE-env": ("C01", "C02", "C04", "C05", "C06", "C09", "C10"), "LABEL-EXACT": ("C07", "C08"), "EST-TAIL": ("C10",), "BOOK-extract": ("C13", "C02"), "DETACH": ("C02", "C05", "C06", "C07", "C09", "C13"), "STALE-PS": ("C01", "C02", "C03", "C06", "C09", "C10"), "DTYPE": ("C01", "C07", "C10", "C06", "C09", "C02", "C05", "C04", "C08"), "STALE-VIEW": ("C01", "C02", "C04", "C05", "C06", "C07", "C09", "C10"),
 }
 
 
